@@ -243,6 +243,8 @@ def run_template(name, repo_src, workdir, canary=True, rlimit=None):
     txt = gen.text()
     out['trusted_scan'] = {
         'external_body': len(re.findall(r'external_body', txt)),
+        'external_body_fns': sorted(set(re.findall(r'#\[verifier::external_body\]\s*(?:pub\s+)?(?:unsafe\s+)?fn\s+(\w+)', txt))),
+        'assume_specification_fns': sorted(set(m_.strip() for m_ in re.findall(r'assume_specification(?:<[^>]*>)?\[\s*([^\]]+?)\s*\]', txt))),
         'axiom_fns': re.findall(r'\baxiom fn (\w+)', txt),
         'assume': len(re.findall(r'\bassume\s*\(', txt)),
         'admit': len(re.findall(r'\badmit\s*\(', txt)),
